@@ -12,6 +12,7 @@ pub mod c08;
 pub mod c09a;
 pub mod c09b;
 pub mod c12;
+pub mod c13;
 pub mod c14;
 pub mod c15;
 pub mod c15b;
@@ -55,6 +56,7 @@ pub fn run(ctx: &Ctx) -> Option<Report> {
         "C10" => Some(brackets::run(ctx, true)),
         "C11" => Some(brackets::run(ctx, false)),
         "C12" => Some(c12::run(ctx)),
+        "C13" => Some(c13::run(ctx)),
         "C14" => {
             let mut r = c14::run(ctx);
             // evaluations = executed matrix cells (the module counts worlds there)
@@ -122,6 +124,7 @@ pub fn replay(ctx: &Ctx, case: &Value) -> Option<Report> {
         "C10" => Some(brackets::replay(ctx, case, true)),
         "C11" => Some(brackets::replay(ctx, case, false)),
         "C12" => Some(c12::replay(ctx, case)),
+        "C13" => Some(c13::replay(ctx, case)),
         "C14" => Some(c14::replay(ctx, case)),
         "C15" => {
             if case.get("half").and_then(|h| h.as_str()) == Some("c15b") {
